@@ -103,19 +103,12 @@ def collect(ctx, cases, jobs):
 
 
 def judge(ctx, cases, jobs, obs, pid='C02', module='TraceDict'):
-    tf = os.path.join(ctx.work, 'dict_traces.ndjson')
-    with open(tf, 'w') as f:
-        for (i, cfg, validator, form, mkey), o in zip(jobs, obs):
-            oo = {k: v for k, v in o.items() if k in ('req', 'resp', 'args', 'ncalls', 'dec')}
-            f.write(json.dumps({'c': cases[i], 'cfg': cfg, 'form': form, 'obs': oo}) + '\n')
-    cfgt = pc.write_cfg(os.path.join(ctx.work, 'tracedict.cfg'), ['INIT Init', 'NEXT Next', 'CONSTRAINT Report', 'CHECK_DEADLOCK FALSE'])
-    rt = tlc.run(module, cfgt, ctx.work, env={'TRACE_FILE': tf}, timeout=3000, workers=8)
-    seen = {}
-    for p in rt.prints:
-        if p and p[0] == 'V':
-            seen[p[1]] = set(p[2])
-    if len(seen) != len(jobs):
-        raise tlc.TlcError('%s evaluated %d of %d\n%s' % (module, len(seen), len(jobs), rt.stdout[-2500:]))
+    recs = []
+    for (i, cfg, validator, form, mkey), o in zip(jobs, obs):
+        oo = {k: v for k, v in o.items() if k in ('req', 'resp', 'args', 'ncalls', 'dec')}
+        recs.append({'c': cases[i], 'cfg': cfg, 'form': form, 'obs': oo})
+    res = tlc.validate_records(module, ['INIT Init', 'NEXT Next', 'CONSTRAINT Report', 'CHECK_DEADLOCK FALSE'], ctx.work, recs, tag='dict')
+    seen = {k + 1: set(v[0]) for k, v in res.items()}
     nfail = 0
     for k, (job, o) in enumerate(zip(jobs, obs)):
         cl = seen[k + 1]
